@@ -191,6 +191,23 @@ def run_shard(spec):
             cnt["boundary_sum_images"] = cnt.get("boundary_sum_images", 0) + 1
             cnt[info["cls"]] += 1
             res["sets"]["how"].append("boundary-sum")
+        # every directive name, with and without its dot, followed by a code block it may or may not take, after operands of several shapes
+        from vlib import gen as _gen
+        names = sorted(set(n.lstrip(".") for n in _gen.METANAMES))
+        for nm in (names[spec["part"] % spec["parts"]::spec["parts"]] if spec["tier"] == "quick" else names):
+            for dot in (".", ""):
+                for ops in ("", " 1, 2", " \"a\"", " lab", " 2"):
+                    spelled = dot + (nm.upper() if rnd.random() < 0.3 else nm)
+                    text = rnd.choice(["", "lab: nop\n"]) + f"{spelled}{ops} {{ nop }}\n" + rnd.choice(["", " nop\n", f"{spelled}{ops} {{\n}}\n"])
+                    case = {"files": [[os.path.join(root, "f0.mac"), text]], "handler": rnd.choice(["bare", "graphical", "record"]), "cli": False, "root": root,
+                            "wctl": rnd.choice(["everything", "default", "nothing"]), "wseed": rnd.randrange(1 << 30)}
+                    vs, info = run_one(case, cnt)
+                    res["violations"].extend(vs)
+                    res["evaluations"] += 1
+                    cnt["directive_block_sweep_programs"] = cnt.get("directive_block_sweep_programs", 0) + 1
+                    cnt[info["cls"]] += 1
+                    res["sets"]["how"].append("directive-block-sweep")
+                    res["sets"]["diag_ids"].extend(info["ids"])
         # every character after a backslash, in every quoting style and literal form: an escape is either defined or reported
         esc_chars = [chr(c) for c in range(0x20, 0x7F)] + ["\n", "\t", "\r", "\0", "\x7f", "\xe9", "\u044f", "\u2028", "\ufeff", "\U0001f600"]
         for ch in (esc_chars[spec["part"] % spec["parts"]::spec["parts"]] if spec["tier"] == "quick" else esc_chars):
